@@ -18,7 +18,7 @@ CLEAR_CACHES_EVERY = 100
 RULE = (
     "Cases = synthetic spaces for get_function_representation(space_info, name, input_prefix): 0-2 restricted "
     "discrete states with a random feasibility mask (>=1 True) and an indexer built by the harness (rank among True, "
-    "-1 elsewhere), 0-2 unrestricted discrete states, 0-3 continuous states (linear/log, 2-7 nodes), a random value "
+    "-1 elsewhere), 0-2 unrestricted discrete states, 0-3 continuous states (linear/log, 2-7 nodes; a further axis re-uses the grid specification of an earlier one in 1 draw of 3), a random value "
     "array of the implied shape, prefix '' or 'next_'; evaluation points = grid nodes, interior points, collinear "
     "triples inside one cell, points up to one grid length outside linear grids (log grids only inside the range), "
     "feasible label combinations only; evaluated plain, under jax.jit and under jax.vmap. Oracle: NumPy lookup + "
